@@ -375,6 +375,13 @@ def explore(ctx):
                 masters[-1]["groups"] = dict(masters[-1]["groups"], **{"public.kern1.X": [names[3]]})
                 masters[-1]["kerning"][("public.kern1.X", names[0])] = Fr(-22)
                 ctx.klass("kerning group defined by a non-default master only")
+        if vfeat and i % 4 == 0 and n >= 3 and not propagate:
+            # feature files that differ from master to master in a COMMENT only (not on the last line) are the same features: the
+            # layout is still built as variable features -- where a master WITHOUT any kerning means zero kerning there
+            for k, m in enumerate(masters):
+                m["features"] = "# feature file of master %d\n" % k + (m.get("features") or "languagesystem DFLT dflt;\n")
+            masters[1]["kerning"] = {}
+            ctx.klass("feature files differing in a comment only, one master without kerning")
         # (merged layout needs structurally identical per-master GPOS: same pairs in every master)
         if multi:
             from fontTools.designspaceLib import VariableFontDescriptor, RangeAxisSubsetDescriptor, ValueAxisSubsetDescriptor
